@@ -117,7 +117,12 @@ VTr1(ev) ==
   ELSE IF Len(o[2]) # m THEN "protein:length"
   ELSE Ok(\A i \in 1..m : o[2][i] \in AAOptions(cs[i], i, ev[6], ev[7]), "protein")
 
-Verdict(ev) == CASE ev[1] = "tr1" -> VTr1(ev) [] ev[1] = "cds" -> VCds(ev) [] ev[1] = "win" -> VWin(ev) [] ev[1] = "cf" -> VCf(ev)
+(* ["fsh", frame, n, outcome of shift(n), outcome of shift(n).shift(-n)] : the running frame after n more (n < 0: fewer)
+   bases, and walking back *)
+VFsh(ev) == FirstBad(<<Ok(IsVal(ev[4]) /\ ev[4][2] = (ev[2] + ev[3]) % 3, "frame-shift"),
+                       Ok(IsVal(ev[5]) /\ ev[5][2] = ev[2], "frame-shift-undone")>>)
+
+Verdict(ev) == CASE ev[1] = "fsh" -> VFsh(ev) [] ev[1] = "tr1" -> VTr1(ev) [] ev[1] = "cds" -> VCds(ev) [] ev[1] = "win" -> VWin(ev) [] ev[1] = "cf" -> VCf(ev)
                  [] OTHER -> "unknown-op"
 Bad == {i \in DOMAIN Trace : Verdict(Trace[i]) # "ok"}
 ASSUME \A i \in Bad : PrintT(<<"BAD", i, Verdict(Trace[i])>>)
